@@ -1,1 +1,2 @@
 pub mod c08;
+pub mod c09;
